@@ -580,7 +580,43 @@ def exhaustive_sequences():
                 segs.append(('xsm-%d.%d-%s-%d' % (la, ha, cs or 'none', pos), ops))
     return segs
 
-EXHAUSTIVE = {'C03': [exhaustive_bounds], 'C04': [exhaustive_teardown], 'C05': [exhaustive_sequences], 'C06': [exhaustive_sequences]}
+def exhaustive_seqmonitors():
+    """C05/C06/C13/C15: ONE sequence with 2..3 entries, each either an expectation on f(i) (bounds (1,1), (0,1) or (1,2)) or a
+    REQUIRE_DESTRUCTION on object i, registered in index order; every order of the entries' primary events (call f(i) / destroy object i),
+    optionally with one repeated call, with an unsequenced ALLOW_CALL fallback present or not; then everything is released and the sequence destroyed"""
+    segs = []
+    bopts = [(1, 1), (0, 1), (1, 2)]
+    for n in (2, 3):
+        for kinds in itertools.product('em', repeat=n):
+            nexp = sum(1 for k in kinds if k == 'e')
+            for bnds in itertools.product(bopts, repeat=nexp):
+                for perm in itertools.permutations(range(n)):
+                    for extra in ((None,) + tuple(i for i in range(n) if kinds[i] == 'e') if n == 2 else (None,)):
+                        for fb in ((0, 1) if n == 2 else (0,)):
+                            ops = ['mock 0', 'seq 1']
+                            if fb:
+                                ops.append(expect_line(6, 9, 0, retv=600))        # older unsequenced ALLOW_CALL f(_)
+                            bi = 0
+                            for i, k in enumerate(kinds):
+                                if k == 'e':
+                                    lo, hi = bnds[bi]; bi += 1
+                                    ops.append(expect_line(i + 1, 5, 0, p=((1, i), (0, 0)), retv=100 * (i + 1), lo=lo, hi=hi, q=(1, 0)))
+                                else:
+                                    ops += ['obj %d' % (i + 1), 'watch %d %d 1 1 0' % (i + 1, i + 1)]
+                            evs = list(perm)
+                            if extra is not None:
+                                evs = evs + [extra]
+                            for i in evs:
+                                ops.append('call 0 1 %d 0' % i if kinds[i] == 'e' else 'dobj %d' % (i + 1))
+                            for i, k in enumerate(kinds):
+                                ops.append('release %d' % (i + 1) if k == 'e' else 'unwatch %d' % (i + 1))
+                            ops.append('dseq 1')
+                            segs.append(('xq-%s-%s-%s-%s-%d' % (''.join(kinds), '.'.join('%d%d' % b for b in bnds) or 'x', ''.join(map(str, perm)),
+                                                                'n' if extra is None else str(extra), fb), ops))
+    return segs
+
+EXHAUSTIVE = {'C03': [exhaustive_bounds], 'C04': [exhaustive_teardown], 'C05': [exhaustive_sequences, exhaustive_seqmonitors],
+              'C06': [exhaustive_sequences, exhaustive_seqmonitors]}
 
 def exhaustive_selection():
     """C02: (A) ties - two sequences, 1..2 optional predecessors in each, one candidate per sequence matching the same call
@@ -763,5 +799,5 @@ def exhaustive_tracers():
                 segs.append(('xtr-%s-%s' % (''.join(map(str, kinds)), ''.join(map(str, perm))), ops))
     return segs
 
-EXHAUSTIVE.update({'C07': [exhaustive_forbid], 'C08': [exhaustive_clauses], 'C13': [exhaustive_monitors], 'C14': [exhaustive_monitors],
-                   'C15': [exhaustive_reports, exhaustive_forbid], 'C16': [exhaustive_reports], 'C17': [exhaustive_tracers]})
+EXHAUSTIVE.update({'C07': [exhaustive_forbid], 'C08': [exhaustive_clauses], 'C13': [exhaustive_monitors, exhaustive_seqmonitors], 'C14': [exhaustive_monitors],
+                   'C15': [exhaustive_reports, exhaustive_forbid, exhaustive_seqmonitors], 'C16': [exhaustive_reports], 'C17': [exhaustive_tracers]})
